@@ -46,6 +46,9 @@ type ReplayFile struct {
 	Cfg       map[string]any    `json:"config"`
 	Trace     []string          `json:"trace"`
 	Labels    []string          `json:"tape_labels,omitempty"`
+	// FromSeed: the tape is not recorded (the process died before it could be written); the replay generates it
+	// from Seed, exactly as the search did.
+	FromSeed bool `json:"tape_from_seed,omitempty"`
 }
 
 type ViolOut struct {
@@ -323,6 +326,7 @@ func doRuns(e *Engine, job *Job, out *WorkerOut, start time.Time) {
 			seedProp = sp // (debugging aid of bin/probe: the seeds of another property's check)
 		}
 		seed := Mix(job.BaseSeed, seedProp, uint64(i))
+		noteCurrent(job, i, seed, job.Opt)
 		res := execute(e, job.Prop, job.Tier, seed, NewGenTape(seed), job.Opt)
 		wmu.Lock()
 		handle(i, seed, res, job.Opt)
@@ -333,6 +337,7 @@ func doRuns(e *Engine, job *Job, out *WorkerOut, start time.Time) {
 				break
 			}
 			opt := withOpt(job.Opt, "sub", sub)
+			noteCurrent(job, i, seed, opt)
 			sres := execute(e, job.Prop, job.Tier, seed, NewGenTape(seed), opt)
 			wmu.Lock()
 			out.Stats["subruns"]++
@@ -346,6 +351,13 @@ func doRuns(e *Engine, job *Job, out *WorkerOut, start time.Time) {
 	for d := range ntdigs {
 		out.NontrivDig = append(out.NontrivDig, d)
 	}
+}
+
+// noteCurrent records which execution is about to start. An unrecovered panic in a goroutine of the service ends the
+// whole worker process, as it would end the service; the runner then finds here which seed the process died in.
+func noteCurrent(job *Job, i int, seed uint64, opt map[string]string) {
+	b, _ := json.Marshal(map[string]any{"i": i, "seed": seed, "opt": opt, "engine": job.Engine, "prop": job.Prop, "tier": job.Tier})
+	_ = os.WriteFile(job.Out+".cur", b, 0o644)
 }
 
 func doShrink(e *Engine, job *Job, out *WorkerOut) {
@@ -423,7 +435,11 @@ func doReplay(e *Engine, job *Job, out *WorkerOut) {
 	onStuck = func(_ uint64, after time.Duration) {
 		out.Replay = map[string]any{"same_sig": false, "same_digest": false, "note": fmt.Sprintf("replay did not end within %v of real time", after)}
 	}
-	res := execute(e, rf.Property, rf.Tier, rf.Seed, NewReplayTape(rf.Tape), rf.Opt)
+	tape := NewReplayTape(rf.Tape)
+	if rf.FromSeed {
+		tape = NewGenTape(rf.Seed)
+	}
+	res := execute(e, rf.Property, rf.Tier, rf.Seed, tape, rf.Opt)
 	onStuck = nil
 	out.Runs = 1
 	rep := map[string]any{"digest": res.Digest, "expected_digest": rf.Digest, "trace": res.Trace}
